@@ -2,7 +2,6 @@
 
 import cvxpy
 import numpy as np
-import scipy
 
 from toqito.matrix_props import is_density
 
@@ -82,6 +81,14 @@ def fidelity(rho: np.ndarray, sigma: np.ndarray) -> float:
         raise ValueError("Fidelity is only defined for density operators.")
 
     # If `rho` or `sigma` are *not* cvxpy variables, compute fidelity normally, since this is much faster.
-    sq_rho = scipy.linalg.sqrtm(rho)
-    sq_fid = scipy.linalg.sqrtm(sq_rho @ sigma @ sq_rho)
-    return np.real(np.trace(sq_fid))
+    # F = || sqrt(rho) sqrt(sigma) ||_1 with Hermitian square roots from eigendecompositions
+    # (scipy.linalg.sqrtm fails or loses accuracy on singular matrices such as pure states).
+    sq_rho = _psd_sqrt(rho)
+    sq_sigma = _psd_sqrt(sigma)
+    return float(np.sum(np.linalg.svd(sq_rho @ sq_sigma, compute_uv=False)))
+
+
+def _psd_sqrt(mat: np.ndarray) -> np.ndarray:
+    """Hermitian square root of a positive semidefinite matrix."""
+    eig_vals, eig_vecs = np.linalg.eigh(mat)
+    return (eig_vecs * np.sqrt(np.clip(eig_vals, 0, None))) @ eig_vecs.conj().T
